@@ -112,6 +112,31 @@ def sequence_header_payload(f, variant=0):
     return b.tobytes()
 
 
+def sequence_header_base_defaults(base, version=2, profile="HQ", clean=(16, 16), fields=False, level=0):
+    """a sequence header that takes its frame size, colour-difference format, scan format and signal range from
+    base video format `base` (no custom dimensions); only the clean area is custom (a small one at the origin)"""
+    b = Bits()
+    b.uint(version)
+    b.uint(0)
+    b.uint(PROFILE[profile])
+    b.uint(level)
+    b.uint(base)
+    for _ in range(5):  # dimensions, colour-diff format, scan format, frame rate, aspect ratio: defaults
+        b.bool(0)
+    if clean is None:
+        b.bool(0)
+    else:
+        b.bool(1)  # custom_clean_area_flag
+        b.uint(clean[0])
+        b.uint(clean[1])
+        b.uint(0)
+        b.uint(0)
+    b.bool(0)  # signal range
+    b.bool(0)  # colour spec
+    b.uint(1 if fields else 0)
+    return b.tobytes()
+
+
 def transform_parameters(b, f, profile):
     b.uint(f.wavelet)
     b.uint(f.depth)
